@@ -11,6 +11,9 @@
 #   i8/i16/i32/i64  dbg with checked-intN coefficients
 #   fuzz  clang++ -fsanitize=fuzzer-no-link,address,undefined, assertions ON
 
+MAKEFLAGS += -r
+.SUFFIXES:
+
 REPO    ?= /repo
 VERIF   := $(abspath $(dir $(lastword $(MAKEFILE_LIST))))
 FLV     ?= dbg
